@@ -132,7 +132,12 @@ def oracle_file(case):
             lastext.section("A", T("~A"), [lastext.row(["1"] if ".." in s else ["1", "2"])], ncols=1 if ".." in s else 2)]
     spec = {"nl": "\n", "final_nl": True, "sections": secs}
     mc = case.get("mnemonic_case", "preserve")
-    las = read_spec(spec, mnemonic_case=mc)
+    rkw = {}
+    if case.get("read_policy") is not None:
+        # the data-section substitution policy has no say in how HEADER values are converted
+        rkw["read_policy"] = case["read_policy"]
+        out.cls("read_policy-%r" % (case["read_policy"],))
+    las = read_spec(spec, mnemonic_case=mc, **rkw)
     out.cls("file", "mc-" + mc, "v12" if v12 else ("v30" if case.get("vers") == "3.0" else "v20"))
     out.nontrivial = True
     out.sample = dict(s=s, names=names)
@@ -146,6 +151,9 @@ def oracle_file(case):
             continue
         for item in sec:
             om = item.original_mnemonic
+            if om.upper() == "VERS" and case.get("vers") not in (None, "3.0"):
+                judge(case["vers"], item.value, out, where="Version:VERS")  # `VERS. 2` is an integer literal like any other
+                continue
             if om.upper() in ("VERS", "WRAP", "STRT", "STOP", "STEP", "NULL"):
                 continue
             verbatim = (not convert_named) and om.upper() in ("API", "UWI")
@@ -173,6 +181,10 @@ def named_files(tier):
                 yield {"file": 1, "s": s, "mnemonic_case": mc, "v12": v12}
                 if mc == "preserve":
                     yield {"file": 1, "s": s, "mnemonic_case": mc, "v12": v12, "titles": "lower"}
+                if mc == "upper" and not v12:
+                    yield {"file": 1, "s": s, "mnemonic_case": mc, "v12": False, "read_policy": []}
+                    yield {"file": 1, "s": s, "mnemonic_case": mc, "v12": False, "read_policy": "comma-delimiter"}
+                    yield {"file": 1, "s": s, "mnemonic_case": mc, "v12": False, "vers": "2"}
                 if mc == "upper" and not v12:
                     # a file that declares VERS 3.0 but is laid out like a 2.0 file (lasio's partial 3.0 support): the
                     # kinds of its sections, and so which values convert, are the same
